@@ -29,7 +29,11 @@ Definition parith : arith float :=
   mkArith float PrimFloat.add PrimFloat.sub PrimFloat.mul PrimFloat.div PrimFloat.ltb PrimFloat.leb PrimFloat.eqb
           FWFloat.of_Z pf_floor pf_ceil pf_finite
           (fun n d => PrimFloat.div (FWFloat.of_Z n) (FWFloat.of_Z (Zpos d))) PrimFloat.nan PrimFloat.infinity PrimFloat.neg_infinity
-          (fun a b => if PrimFloat.ltb b a then b else a) (fun a b => if PrimFloat.ltb a b then b else a).
+          (fun a b => if PrimFloat.ltb b a then b else a) (fun a b => if PrimFloat.ltb a b then b else a)
+          (* // , % and int() are not used by the FixedWidthBinning kernels; filled in by their textbook definitions *)
+          (fun a b => FWFloat.of_Z (pf_floor (PrimFloat.div a b)))
+          (fun a b => PrimFloat.sub a (PrimFloat.mul b (FWFloat.of_Z (pf_floor (PrimFloat.div a b)))))
+          (fun a => if PrimFloat.ltb a 0%float then (- pf_floor (PrimFloat.opp a))%Z else pf_floor a).
 
 Lemma pf_lt_asym a b : flt parith a b = true -> flt parith b a = false.
 Proof.
